@@ -1253,6 +1253,9 @@ class Evaluator(Run):
 
     def store_subscript(self, base, sl, val, node, frame):
         lab = self.lab(node, "store")
+        if base.t.kind == "union":
+            # `x[k] = v` on an optional container: None is a TypeError path, otherwise the store goes to the container member
+            base = self.project(base, lambda t: t.kind != "none", lab)
         k = base.t.kind
         if k in ("drec", "itemref"):
             from . import records
@@ -1339,7 +1342,7 @@ class Evaluator(Run):
                 raise ReturnEx(self.lift(ab["may_return"]) if ab["may_return"] != "None" else mk_none())
         if ab.get("may_raise", True):
             if self.choose([0, 1], self.lab(node, "abstract")) == 1:
-                raise PyRaise(Exc("Exception", exact=False, tag="abstracted statement"))
+                raise PyRaise(Exc(ab["may_raise"] if isinstance(ab.get("may_raise"), str) else "Exception", exact=False, tag="abstracted statement"))
 
     def ex_Expr(self, node, frame):
         if isinstance(node.value, ast.Constant):
